@@ -1134,11 +1134,60 @@ class WildGen(StoreGen):
                                                    r.choice(["^(a+)(b*)", "(.)(.)(.)", "c$", "[a-z]+-([a-z]+)"])), {"has": ["match"]})
         return None
 
+    def operand_form_stmt(self, fr):
+        r = self.r
+        forms = {f[0]: f for f in OPERAND_FORMS}
+        for _ in range(6):
+            ty, fid = r.choice(self.accepted)
+            _, res, tmpl, has = forms[fid]
+            if tmpl is None or res == STMT and fid in ("error-argument", "synthetic-argument") or "f0(" in tmpl or "f1(" in tmpl:
+                continue
+            own = [k for k, t in fr["locals"].items() if t == ty]
+            if not own:
+                continue
+            a = r.choice(own)
+            b = r.choice(own)
+            sub = {}
+            ok = True
+            for ref, t in (("var.v2", "S"), ("var.v3", "B"), ("var.v4", "R"), ("var.v6", "T")):
+                if ref in tmpl or (ref == {"S": "var.v2", "B": "var.v3", "T": "var.v6"}.get(res)):
+                    ks = [k for k, tt in fr["locals"].items() if tt == t and k != a]
+                    if not ks:
+                        ok = False
+                        break
+                    sub[ref] = "var.v%d" % r.choice(ks)
+            if res == SAME:
+                ks = [k for k in own if k != a]
+                if not ks or ty == "A":
+                    ok = False
+                else:
+                    sub["var.v5"] = "var.v%d" % r.choice(ks)
+            if not ok:
+                continue
+            text = tmpl.format(a="\0A", b="\0B")
+            for ref, new in sub.items():
+                text = text.replace(ref, "\0" + ref)
+            for ref, new in sub.items():
+                text = text.replace("\0" + ref, new)
+            text = text.replace("\0A", "var.v%d" % a).replace("\0B", "var.v%d" % b)
+            if res == STMT:
+                tgt = sub.get("var.v2") if "var.v2" in tmpl else ("req.http.hb" if tmpl.startswith("add ") else
+                                                                 ("req.http.ha:k1" if tmpl.startswith("set req.http.ha:k1") else None))
+                stmt = text
+            else:
+                tgt = {"B": sub.get("var.v3"), "S": sub.get("var.v2"), "T": sub.get("var.v6"), SAME: sub.get("var.v5"), HDR: "req.http.hc"}.get(res)
+                if tgt is None:
+                    continue
+                stmt = "set %s = %s;" % (tgt, text)
+            self._c("dim:opform:%s:%s" % (TYN[ty], fid))
+            return ("rawstmt", stmt, {"target": tgt, "has": list(has)})
+        return None
+
     def wild_stmt(self, fr):
         r = self.r
         p = self.p
         kinds = ["intop", "floatop", "cross", "cross", "field", "field", "add", "url", "time", "ip", "rtimeop",
-                 "typed", "typed", "typedcall", "typedcall", "builtin", "builtin"]
+                 "typed", "typed", "typedcall", "typedcall", "builtin", "builtin", "opform", "opform", "opform"]
         if self.focus:
             kinds += ["typed", "typedcall"] * 6
         c = r.choice(kinds)
@@ -1149,6 +1198,12 @@ class WildGen(StoreGen):
         def st(text, target, has=()):
             self._c("wstmt:" + c)
             return ("rawstmt", text, {"target": target, "has": list(has)})
+        if c == "opform" and getattr(self, "accepted", None):
+            # a cell of the operand matrix (type x expression form, the ones the interpreter accepted in this run's
+            # exhaustive pass) inside a random program: operands that are parameters, re-declared, copied, in branches
+            w = self.operand_form_stmt(fr)
+            if w is not None:
+                return w
         if c == "builtin":
             # built-in functions WITH side effects, as statements: what they may write is read off the Go
             # source (Gen/StoreEffects.v); the check allows exactly the named header of the named object
@@ -1267,6 +1322,11 @@ OPERAND_FORMS = [
     ("concat", "S", "{a} {b}", ()), ("concat-plus", "S", "{a} + {b}", ()),
     ("concat-after-literal", "S", '"x" {a}', ()), ("concat-before-literal", "S", '{a} "x"', ()),
     ("time-plus-literal", "S", "{a} + 5m", ()), ("time-minus-literal", "S", "{a} - 5m", ()),
+    ("time-plus-signed-literal", "S", "{a} +5m", ()), ("time-minus-signed-literal", "S", "{a} -5m", ()),
+    ("time-minus-inside-concat", "S", '"x" {a} -1h "y"', ()), ("time-plus-inside-concat", "S", '"x" + {a} + 1h + "y"', ()),
+    ("time-plus-in-comparison", "B", "({a} + 5m > {b})", ()), ("time-minus-in-comparison", "B", "({a} - 5m < {b})", ()),
+    ("time-plus-as-builtin-argument", "I", "std.strlen({a} + 5m)", ()), ("time-plus-to-header", HDR, "{a} + 5m", ()),
+    ("time-plus-in-condition", STMT, 'if ({a} + 5m == {b}) {{ set var.v2 = "y"; }}', ()),
     ("time-plus-literal-to-TIME", "T", "{a} + 5m", ()), ("time-minus-literal-to-TIME", "T", "{a} - 1h", ()),
     ("time-plus-rtime-variable", "T", "{a} + var.v4", ()), ("time-literal-plus-this", "T", "var.v6 + {a}", ()),
     ("copy", SAME, "{a}", ()), ("to-string", "S", "{a}", ()), ("to-header", HDR, "{a}", ()),
